@@ -6,6 +6,7 @@ import (
 	"fmt"
 	"io"
 	"net"
+	"strings"
 	"time"
 
 	req "github.com/imroc/req/v3"
@@ -27,8 +28,14 @@ type h2Seen struct {
 	Hung     bool   `json:"hung,omitempty"`
 }
 
-func newH2Client(addr string) *req.Client {
-	c := req.C().DisableAutoDecode().SetTimeout(25 * time.Second).EnableH2C().EnableForceHTTP2()
+// decomp: AutoDecompression with the caller's own Accept-Encoding, so that every coding goes
+// through internal/compress (otherwise only a transparently requested gzip is decoded)
+func newH2Client(addr string, decomp bool) *req.Client {
+	c := req.C().DisableAutoDecode()
+	if decomp {
+		c.EnableAutoDecompress().SetCommonHeader("Accept-Encoding", "gzip, deflate, br, zstd")
+	}
+	_ = c.SetTimeout(25 * time.Second).EnableH2C().EnableForceHTTP2()
 	dial := func(ctx context.Context, network, _ string) (net.Conn, error) {
 		var d net.Dialer
 		return d.DialContext(ctx, network, addr)
@@ -46,7 +53,9 @@ func newH2Client(addr string) *req.Client {
 // other than the end of the connection (e.g. more DATA than declared) the client may not
 // have noticed the end yet, and a request written to the dying connection would be lost: that
 // would be a second fault, not the reuse of a connection known to be broken.
-func h2Exchange(srv *wire.H2Server, sc *wire.H2Script, sent []byte, auto, waitGone bool) (o h2Seen) {
+// ref: what the caller's bytes are compared with (the DATA sent, or the plain body when the
+// DATA carries a content-coding the client decodes)
+func h2Exchange(srv *wire.H2Server, sc *wire.H2Script, ref []byte, auto, waitGone, decomp bool) (o h2Seen) {
 	o.Mode = "manual"
 	if auto {
 		o.Mode = "auto"
@@ -56,7 +65,7 @@ func h2Exchange(srv *wire.H2Server, sc *wire.H2Script, sent []byte, auto, waitGo
 	sc.ConnGone = make(chan struct{})
 	srv.Register(id, sc)
 	defer srv.Unregister(id)
-	c := newH2Client(srv.Addr())
+	c := newH2Client(srv.Addr(), decomp)
 	done := make(chan struct{})
 	go func() {
 		defer close(done)
@@ -89,7 +98,7 @@ func h2Exchange(srv *wire.H2Server, sc *wire.H2Script, sent []byte, auto, waitGo
 			}
 		}
 		o.DLen = len(data)
-		o.PrefixOK = len(data) <= len(sent) && bytes.Equal(data, sent[:len(data)])
+		o.PrefixOK = len(data) <= len(ref) && bytes.Equal(data, ref[:len(data)])
 		if waitGone {
 			select {
 			case <-sc.ConnGone:
@@ -134,6 +143,20 @@ func runH2(r *hk.Run, rng *hk.Rand) {
 		L := hk.Pick(rng, lens)
 		body := wire.GenBody(rng, L)
 		term := terms[i%len(terms)]
+		// content-coding of the DATA (the caller gets the decoded body): every 3rd round of terms
+		coding := ""
+		if (i/len(terms))%3 == 2 && term != "hdr-end" && term != "no-headers" {
+			coding = []string{"gzip", "deflate", "br", "zstd", "gzip-auto"}[(i/len(terms)/3+i)%5]
+			if L == 0 {
+				L = 5
+				body = wire.GenBody(rng, L)
+			}
+		}
+		plain := body
+		if coding != "" {
+			body = wire.Encode(strings.TrimSuffix(coding, "-auto"), plain)
+			L = len(body)
+		}
 		pieces := wire.Partition(rng, body, L <= 100 && rng.Chance(20), 12)
 		// declared length
 		clMode := []string{"exact", "none", "more", "less", "exact"}[rng.Intn(5)]
@@ -165,6 +188,21 @@ func runH2(r *hk.Run, rng *hk.Rand) {
 			}
 		}
 		sc := &wire.H2Script{Status: 200, Fields: []wire.Field{{Name: "content-type", Value: "application/octet-stream"}}}
+		if coding != "" {
+			sc.Fields = append(sc.Fields, wire.Field{Name: "content-encoding", Value: strings.TrimSuffix(coding, "-auto")})
+		}
+		// interim responses in front of the final one (some declaring a length of their own)
+		nInterim := []int{0, 0, 1, 0, 2, 0, 1, 5}[(i/len(terms)+i)%8]
+		if term == "no-headers" {
+			nInterim = 0
+		}
+		for x := 0; x < nInterim; x++ {
+			blk := []wire.Field{{Name: ":status", Value: []string{"103", "102", "100"}[(x+i)%3]}, {Name: "link", Value: "</s.css>; rel=preload"}}
+			if (i+x)%2 == 0 {
+				blk = append(blk, wire.Field{Name: "content-length", Value: fmt.Sprint(1 + (i+x)%7)})
+			}
+			sc.Interim = append(sc.Interim, blk)
+		}
 		if cl >= 0 {
 			sc.Fields = append(sc.Fields, wire.Field{Name: "content-length", Value: fmt.Sprint(cl)})
 		}
@@ -176,6 +214,9 @@ func runH2(r *hk.Run, rng *hk.Rand) {
 		}
 		if term == "rst" && !rstRandom && (k/5)%4 < 2 {
 			keep = len(pieces) // every DATA byte (and all that was declared) arrives, then RST_STREAM
+		}
+		if coding != "" && i%5 != 0 {
+			keep = len(pieces) // the coded stream arrives whole; the fault lies behind its last byte
 		}
 		for j := 0; j < keep; j++ {
 			last := j == len(pieces)-1 && term == "end"
@@ -233,11 +274,24 @@ func runH2(r *hk.Run, rng *hk.Rand) {
 			evs = []string{"H2ConnEnd"}
 		}
 		auto := i%4 == 3
-		o := h2Exchange(srv, sc, sent, auto, term == "goaway-close" || term == "close" || term == "cutframe")
+		ref := sent
+		if coding != "" {
+			ref = plain
+		}
+		o := h2Exchange(srv, sc, ref, auto, term == "goaway-close" || term == "close" || term == "cutframe", coding != "" && coding != "gzip")
 		sig := fmt.Sprintf("h2:%s:cl-%s:%s", term, clMode, o.Mode)
+		if coding != "" {
+			sig += ":coded-" + coding
+			r.Count("h2.coding=" + coding)
+		}
+		if nInterim > 0 {
+			sig += fmt.Sprintf(":interim-%d", nInterim)
+		}
+		r.Count(fmt.Sprintf("h2.interim=%d", nInterim))
 		r.Count("h2.term=" + term)
 		r.Count("h2.cl=" + clMode)
-		in := map[string]interface{}{"terminal": term, "content_length": cl, "body_len": L, "data_frames_sent": keep, "of": len(pieces), "sent_bytes": len(sent), "mode": o.Mode}
+		in := map[string]interface{}{"terminal": term, "content_length": cl, "body_len": L, "data_frames_sent": keep, "of": len(pieces), "sent_bytes": len(sent), "mode": o.Mode,
+			"coding": coding, "plain_len": len(plain), "interim_blocks": sc.Interim}
 		success := o.CallErr == "" && o.ReadErr == ""
 		// the message is complete and consistent iff it ended with END_STREAM after all the
 		// data and the declared length (if any) equals what was sent
@@ -248,7 +302,7 @@ func runH2(r *hk.Run, rng *hk.Rand) {
 			r.Fail(hk.Failure{Sig: "h2:panic-or-hang:" + sig, What: "exchange panicked or hung", Input: in, Got: o})
 		case success && !consistent:
 			r.Fail(hk.Failure{Sig: "h2:bad-message-success:" + sig, What: "a stream that was reset/cut or whose DATA total differs from content-length was reported as success", Input: in, Got: o, Want: "an error from the call or from reading the body"})
-		case success && (o.DLen != len(sent) || !o.PrefixOK):
+		case success && (o.DLen != len(ref) || !o.PrefixOK):
 			r.Fail(hk.Failure{Sig: "h2:wrong-body:" + sig, What: "success with a body different from what the origin sent", Input: in, Got: o})
 		case !success && consistent:
 			r.Fail(hk.Failure{Sig: "h2:complete-failed:" + sig, What: "a complete, consistent response was reported as an error", Input: in, Got: o})
@@ -271,6 +325,9 @@ func runH2(r *hk.Run, rng *hk.Rand) {
 				if cls == "" {
 					cls = "H2Pending"
 				}
+				if coding != "" && o.ReadErr != "" && cls == "H2Clean" {
+					cls = "H2Pending" // a decoder's error: not clean, no framing class
+				}
 				seen = fmt.Sprintf("(H2SeenRead %s %s %s)", cls, hk.CoqN(uint64(o.DLen)), hk.CoqBool(o.PrefixOK))
 			}
 			sid, w := sc.Recorded()
@@ -279,12 +336,40 @@ func runH2(r *hk.Run, rng *hk.Rand) {
 				wireOpt = fmt.Sprintf("(Some (%s, %s))", hk.CoqN(uint64(sid)), coqBig(w))
 				r.Count("h2.wire-level-case")
 			}
-			coq = fmt.Sprintf("H2Case %s %s %s %s %s %s %s %s", hk.CoqOpt(cl >= 0, hk.CoqN(uint64(max(cl, 0)))), hk.CoqBool(sc.HdrEnd),
-				hk.CoqBool(sc.Status < 0), hk.CoqList(parens(evs)), wireOpt, coqBig(sent), seen, hk.CoqBool(o.SameConn))
+			codedOpt := "None"
+			if coding != "" {
+				codedOpt = fmt.Sprintf("(Some (%s, %s, %s))", coqCoding(coding), hk.CoqN(uint64(len(body))), hk.CoqN(uint64(len(plain))))
+			}
+			coq = fmt.Sprintf("H2Case %s %s %s %s %s %s %s %s %s", coqBlocks(sc.Interim, 200, cl), hk.CoqBool(sc.HdrEnd),
+				hk.CoqBool(sc.Status < 0), hk.CoqList(parens(evs)), wireOpt, codedOpt, coqBig(sent), seen, hk.CoqBool(o.SameConn))
 		}
 		r.Add(hk.Case{Coq: coq, Desc: map[string]interface{}{"kind": "h2", "script": in, "seen": o}},
-			fmt.Sprintf("h2|%s|%d|%d|%d|%x|%s", term, cl, keep, len(pieces), sent, o.Mode), !consistent)
+			fmt.Sprintf("h2|%s|%d|%d|%d|%x|%s|%s|%d", term, cl, keep, len(pieces), sent, o.Mode, coding, nInterim), !consistent)
 	}
+}
+
+// coqBlocks renders the header blocks of an exchange as Model/Interim.v hblock values:
+// (status, declared content-length) of every interim block, then the final one.
+func coqBlocks(interim [][]wire.Field, status, cl int) string {
+	var bs []string
+	for _, blk := range interim {
+		st, icl := 0, -1
+		for _, f := range blk {
+			switch f.Name {
+			case ":status":
+				fmt.Sscan(f.Value, &st)
+			case "content-length":
+				fmt.Sscan(f.Value, &icl)
+			}
+		}
+		bs = append(bs, fmt.Sprintf("(mkHb %s %s)", hk.CoqN(uint64(st)), hk.CoqOpt(icl >= 0, hk.CoqN(uint64(max(icl, 0))))))
+	}
+	bs = append(bs, fmt.Sprintf("(mkHb %s %s)", hk.CoqN(uint64(status)), hk.CoqOpt(cl >= 0, hk.CoqN(uint64(max(cl, 0))))))
+	return hk.CoqList(bs)
+}
+
+func coqCoding(c string) string {
+	return map[string]string{"gzip": "CGzip", "gzip-auto": "CGzip", "deflate": "CDeflate", "br": "CBr", "zstd": "CZstd"}[c]
 }
 
 func parens(xs []string) []string {
